@@ -79,6 +79,8 @@ func c05Catalogue() []c05Val {
 		{"[]float64 NaN", []float64{2.5, math.NaN()}}, {"[]time", []time.Time{tm}}, {"[]interface mixed", []interface{}{1, "x", nil}}, {"[]int empty", []int{}}, {"nil []int", []int(nil)},
 		{"struct", struct{ X int }{1}}, {"map", map[string]interface{}{"a": 1}}, {"*struct", &struct{ X int }{2}}, {"complex", complex(1, 2)}, {"[]byte", []byte("hi")}, {"rune", 'x'},
 		{"string Inf", "Inf"}, {"string -Infinity", "-Infinity"}, {"string +Inf", "+Inf"},
+		// instants Go's time.Parse accepts although they are not written the RFC 3339 way (one-digit hour, comma fraction)
+		{"string time 1-digit hour", "2019-10-05T9:53:17Z"}, {"string time comma fraction", "2019-10-05T09:53:17,25Z"}, {"string time offset", "2019-10-05T09:53:17.5+02:00"},
 	}
 }
 
@@ -160,7 +162,7 @@ func typedWalk(s *model.Schema, t *model.TypeRef, v interface{}, path string, en
 		if !isS {
 			return bad("an RFC 3339 string")
 		}
-		if _, err := time.Parse(time.RFC3339Nano, str); err != nil {
+		if _, err := time.Parse(time.RFC3339Nano, str); err != nil || !ref.RFC3339Shape.MatchString(str) {
 			return bad("an RFC 3339 string")
 		}
 	}
@@ -310,6 +312,7 @@ func runC05(c *run.Ctx) {
 			root := &model.Node{ID: 0, Type: "__root", F: map[string]interface{}{}}
 			q := &model.Node{ID: 1, Type: "Query", F: map[string]interface{}{fname: cv.v}}
 			q.F["obj"] = q
+			q.F["objs"] = model.VList{q}
 			root.F["query"] = q
 			g.Root = root
 			g.Nodes = []*model.Node{root, q}
@@ -323,6 +326,12 @@ func runC05(c *run.Ctx) {
 				depth = 105 + r.Intn(60)
 				ggql.MaxResolveDepth = 300
 			}
+			link := "obj"
+			if k%4 == 3 {
+				// the chain passes through a LIST of objects at every level (33-46 levels: within the default limit)
+				link = "objs"
+				depth = 33 + r.Intn(14)
+			}
 			sels := []model.Sel{&model.Field{Name: fname}}
 			doc := &model.Doc{}
 			frags := k%3 == 1
@@ -333,7 +342,7 @@ func runC05(c *run.Ctx) {
 				sels = []model.Sel{&model.Spread{Name: "Leaf"}}
 			}
 			for d := 0; d < depth; d++ {
-				sels = []model.Sel{&model.Field{Name: "obj", Sels: sels}}
+				sels = []model.Sel{&model.Field{Name: link, Sels: sels}}
 				if frags {
 					sels = []model.Sel{&model.Inline{Cond: []string{"Query", ""}[d%2], Sels: sels}}
 				}
